@@ -266,6 +266,12 @@ def array_call(node, ev):
         if is_unknown(a) or is_unknown(b) or isinstance(a, tuple) or isinstance(b, tuple):
             return NotImplemented
         return F.fn("vstack", need(a), need(b))
+    if d in ("np.hstack", "numpy.hstack", "np.column_stack", "numpy.column_stack") and node.args \
+            and isinstance(node.args[0], (ast.Tuple, ast.List)) and len(node.args[0].elts) == 2:
+        a, b = (ev.ev(e) for e in node.args[0].elts)
+        if is_unknown(a) or is_unknown(b) or isinstance(a, (tuple, DictValue)) or isinstance(b, (tuple, DictValue)):
+            return NotImplemented
+        return F.fn("hstack", need(a), need(b))
     if d in ("np.ceil", "numpy.ceil", "math.ceil", "ceil") and len(node.args) == 1:
         a = ev.ev(node.args[0])
         return NotImplemented if is_unknown(a) or isinstance(a, tuple) else F.fn("ceil", need(a))
@@ -285,6 +291,22 @@ def array_call(node, ev):
     if d in ("np.flatnonzero", "numpy.flatnonzero") and len(node.args) == 1:
         m = ev.ev(node.args[0])
         return NotImplemented if is_unknown(m) or isinstance(m, tuple) else F.fn("where", need(m))
+    if d == "callable" and len(node.args) == 1:
+        v = ev.ev(node.args[0])
+        if not is_unknown(v) and not isinstance(v, (tuple, DictValue)):
+            if str_of(v) is not None or sym_of(v) == "None":
+                return FALSE
+            n = sym_of(v)
+            if n is not None and ev.inline and n in ev.inline:
+                return TRUE
+    if attr == "get" and not _is_np(d) and 1 <= len(node.args) <= 2 and not kw:
+        base = ev.ev(node.func.value)
+        if isinstance(base, DictValue):
+            k = str_of(ev.ev(node.args[0]))
+            if k is not None:
+                if k in base.d:
+                    return base.d[k]
+                return ev.ev(node.args[1]) if len(node.args) == 2 else NONE
     if d == "isinstance" and len(node.args) == 2:
         v = ev.ev(node.args[0])
         t = dotted(node.args[1])
@@ -459,6 +481,17 @@ class Ev3(AutoEvaluator):
                 return
         if isinstance(st, ast.AugAssign) and isinstance(st.target, ast.Name):
             self.inplace[st.target.id] = self.inplace.get(st.target.id, 0) + 1
+            # `h = d["k"]; h /= Q` on an array: an in-place update of the element of the container
+            cur = self.env.get(st.target.id) if st.target.id not in self.buffers else None
+            u = unfn(cur) if cur is not None and not is_unknown(cur) and not isinstance(cur, (tuple, DictValue)) else None
+            if u and u[0] == "idx" and len(u[1]) == 2 and not isinstance(u[1][0], str) and sym_of(u[1][0]) in self.buffers:
+                super().stmt(st)
+                nv = self.env.get(st.target.id)
+                self.seq += 1
+                self.cell_seq.append(self.seq)
+                self.cells.append((sym_of(u[1][0]), u[1][1], nv, st))
+                self.env[st.target.id] = cur
+                return
         return super().stmt(st)
 
     def _for(self, st):
@@ -527,6 +560,9 @@ class Ev3(AutoEvaluator):
 
     # ------------------------------------------------------------ calls
     def _call(self, node):
+        if isinstance(node.func, ast.Name) and node.func.id == "dict" and not node.args and node.keywords and all(k.arg is not None for k in node.keywords) \
+                and "dict" not in self.env:
+            return DictValue({k.arg: self.ev(k.value) for k in node.keywords})
         for h in self.hooks:
             r = h(node, self)
             if r is not NotImplemented:
@@ -611,7 +647,9 @@ class Ev3(AutoEvaluator):
         sub.loop_unroll, sub.loop_once, sub.forward_stores, sub.erase_T = self.loop_unroll, self.loop_once, self.forward_stores, self.erase_T
         # a buffer parameter of the callee (filled by subscript stores) is the caller's array: keep its value, not the callee's spelling
         sub.seq = self.seq
-        sub.param_values = dict(env)
+        vm = getattr(fn, "_vmod", None)
+        if vm is not None and self.src is not None and hasattr(self.src, "funcs_consulted"):
+            self.src.funcs_consulted.add(f"{vm.rel}:{getattr(fn, '_vqual', fn.name)}")      # evidence: helpers the rules followed
         sub.run(fn.body)
         self.calls.extend(sub.calls)
         self.call_seq.extend(sub.call_seq)
